@@ -4,8 +4,8 @@
 # usage: confirm_seed.sh Cxx   (reads /tmp/seed-out/Cxx, works in /tmp/confirm/Cxx, writes /tmp/seed-out/Cxx/confirm.json)
 set -u
 ID=$1
-SRC=/tmp/seed-out/$ID
-W=/tmp/confirm/$ID
+SRC=${2:-/tmp/seed-out}/$ID
+W=/tmp/confirm/$(basename ${2:-seed-out})-$ID
 rm -rf $W; mkdir -p /tmp/confirm
 git -C /repo worktree remove --force $W >/dev/null 2>&1
 git -C /repo worktree add --detach $W HEAD >/dev/null 2>&1 || exit 3
